@@ -334,12 +334,32 @@ def rule_policy(rep, funcs):
                         bad.setdefault("%s reached before setOutOfBoundsPolicy(p)" % c, e["s"])
                 return (st,)
             forward(f, [False], elem_fn)
+            # MUST-PRECEDE(any output or success return; b.checkBounds()): under the Strict policy an out-of-bounds
+            # variable must make the call fail whatever was requested (prediction operators included)
+            rep.count("policy obligations")
+
+            def elem_b(st, b, i, e):
+                if "s" not in e:
+                    return (st,)
+                n = f.stmts[e["s"]]
+                c = last(n.get("callee") or "")
+                if n["k"] == "CXXMemberCallExpr" and c == "checkBounds" and (n.get("calleeClass") or "").startswith("tfel::material::"):
+                    return (True,)
+                if not st:
+                    if n["k"] in ("CXXMemberCallExpr", "CallExpr") and c in (
+                            "computePredictionOperator", "integrate", "exportStateData", "exportTangentOperator",
+                            "computeSpeedOfSound", "getTangentOperator", "getPredictionOperator"):
+                        bad.setdefault("%s reached on a path that skipped checkBounds()" % c, e["s"])
+                    if n["k"] == "ReturnStmt" and f.kids(e["s"]) and not is_minus_one(f, f.kids(e["s"])[0]):
+                        bad.setdefault("return of a non-failure status reached on a path that skipped checkBounds()", e["s"])
+                return (st,)
+            forward(f, [False], elem_b)
             for what, sid in bad.items():
                 key = "POLICY@mfront::gb::integrate#" + what.split(" ")[0]
                 if not any(v["key"] == key for v in rep.violations):
                     rep.fail(key, "%s: %s [%s]" % (rel(f.short_loc(sid)), what, hyp(f)))
             if not bad:
-                rep.ok("mfront::gb::integrate: setOutOfBoundsPolicy(p) precedes initialize/checkBounds/integrate [%s]"
+                rep.ok("mfront::gb::integrate: setOutOfBoundsPolicy(p) precedes initialize/checkBounds/integrate and checkBounds() precedes every output and non-failure return [%s]"
                        % hyp(f), sample=(hyp(f) == "TRIDIMENSIONAL"))
         # ARG-FORWARD: every callee with a policy parameter receives ours
         for sid, n in f.stmts.items():
